@@ -38,17 +38,43 @@ Fixpoint sum_first (k : N) (ls : list text) : N :=
   | l :: r => if k =? 0 then 0 else blen l + 1 + sum_first (N.pred k) r
   end.
 
-(* --- the code as it is now (after the repair "fix: convert the character
-       column to a byte offset") ------------------------------------------- *)
+(* --- the code as it is now (after the repairs "fix: convert the character
+       column to a byte offset" and "fix: a leading byte-order mark is not
+       counted in the columns of the first line") ----------------------------- *)
+
+(* U+FEFF, three bytes of UTF-8 *)
+Definition BOM : N := 65279.
+
+(* line_text.strip_prefix('\u{feff}').is_some() *)
+Definition starts_bom (t : text) : bool :=
+  match t with c :: _ => c =? BOM | [] => false end.
 
 (* fn byte_offset_of(source, line, col):
      if line == 0 { return 0 }
      let mut lines = source.split('\n');
      let line_start = lines.by_ref().take(line-1).map(|l| l.len()+1).sum();
      let line_text = lines.next().unwrap_or("");
+     let (bom, line_text) = match line_text.strip_prefix('\u{feff}') {
+         Some(rest) if line == 1 => ('\u{feff}'.len_utf8(), rest), _ => (0, line_text) };
      let col_bytes = line_text.char_indices().nth(col).map(|(i,_)| i).unwrap_or(line_text.len());
-     (line_start + col_bytes).min(source.len())                                  *)
+     (line_start + bom + col_bytes).min(source.len())                            *)
 Definition byte_offset_of (src : text) (line col : N) : N :=
+  if line =? 0 then 0
+  else
+    let ls := split_nl src in
+    let k := line - 1 in
+    let line_start := sum_first k ls in
+    let line_text := nthN k ls [] in
+    let marked := (line =? 1) && starts_bom line_text in
+    let bom := if marked then utf8_len BOM else 0 in
+    let line_text := if marked then tl line_text else line_text in
+    let col_bytes := blen (firstnN col line_text) in
+    N.min (line_start + bom + col_bytes) (blen src).
+
+(* the same computation without the byte-order-mark step: the code between the two
+   repairs.  On a text that does not begin with a byte-order mark the two agree
+   (SrcLocP.offset_without_bom); on one that does, this one is refuted below. *)
+Definition byte_offset_core (src : text) (line col : N) : N :=
   if line =? 0 then 0
   else
     let ls := split_nl src in
@@ -100,6 +126,11 @@ Fixpoint linecol_from (t : text) (i : nat) (line col : N) : N * N :=
                    else linecol_from r j line (col + 1)
   end.
 Definition linecol (t : text) (i : nat) : N * N := linecol_from t i 1 0.
+
+(* What the compiler sees of a file: a leading byte-order mark is dropped before positions are assigned
+   (rustc_span: SourceFile::new -> remove_bom); the file read back at run time still begins with it. *)
+Definition strip_bom (t : text) : text := if starts_bom t then tl t else t.
+Definition bom_len (t : text) : N := if starts_bom t then utf8_len BOM else 0.
 
 (* byte offset of the character with index i *)
 Definition prefix_len (t : text) (i : nat) : N := blen (firstn i t).
